@@ -86,6 +86,10 @@ def write_replay(prop, viol, rec, world, shrunk_from=None, calls=0):
         "trace_tail": trace[-120:],
         "how_to_replay": "/venv/bin/python checks/run.py --replay " + path,
     }
+    if sys.flags.optimize:
+        # found in the stage that runs the simulation in an interpreter started with -O (asserts stripped from the code
+        # under test): --replay re-executes itself that way
+        doc["interpreter"] = {"optimize": int(sys.flags.optimize)}
     with open(path, "w") as f:
         json.dump(doc, f, indent=1, default=str)
         f.write("\n")
@@ -94,6 +98,8 @@ def write_replay(prop, viol, rec, world, shrunk_from=None, calls=0):
 
 def do_replay(path, quiet=False):
     doc = json.load(open(path))
+    if (doc.get("interpreter") or {}).get("optimize") and not sys.flags.optimize:
+        os.execv(sys.executable, [sys.executable, "-O"] + sys.argv)
     rec = doc["record"]
     clause, w, viol = evaluate_record(rec)
     if w.harness:
@@ -136,11 +142,17 @@ def shrink_and_report(prop, v, profile):
     path = write_replay(prop, viol, small, w, shrunk_from=n0, calls=sh.calls)
     # the replay file must reproduce in a fresh interpreter under another hash seed
     env = dict(os.environ, PYTHONHASHSEED="4242")
-    p = subprocess.run([sys.executable, os.path.abspath(__file__), "--replay", path, "--quiet"], env=env,
+    p = subprocess.run(py_cmd() + [os.path.abspath(__file__), "--replay", path, "--quiet"], env=env,
                        capture_output=True, text=True, timeout=300)
     if p.returncode != 1 or "identical to the recorded run" not in p.stdout:
         return path, "replay in a fresh interpreter did not reproduce exactly:\n" + p.stdout + p.stderr
     return path, None
+
+
+def py_cmd(optimize=None):
+    """this interpreter, with asserts stripped (-O) when asked for or when it runs that way itself"""
+    opt = sys.flags.optimize if optimize is None else optimize
+    return [sys.executable] + (["-O"] if opt else [])
 
 
 def load_known():
@@ -211,6 +223,9 @@ def main():
     t0 = time.time()
     print("osu-dst check property=%s tier=%s VERIF_SEED=%d workers=%d code=%s" % (prop, tier, base, workers, code))
     sys.stdout.flush()
+    substage = os.environ.get("VERIF_SUBSTAGE")  # "opt": this process is the -O stage of another check run
+    if substage:
+        args.no_selftests = True
     budget = float(os.environ.get("VERIF_BUDGET_S", "900" if tier == "thorough" else "0"))
     n_quick = args.runs or int(os.environ.get("VERIF_RUNS", "9000"))
     n_sweep = 56 if tier == "quick" else 0
@@ -294,12 +309,39 @@ def main():
                                "EVERY applicable single fault at every download position: %d runs" % (
                                    max_len, len(sweep.SMALL19_OPS), n, agg.n - before))
 
+    def optimized_stage(n):
+        """The same seeded search in an interpreter started with -O: `assert` statements are compiled out of the code
+        under test (and __debug__ is False), an ambient setting of the process like its time zone or hash salt.  A
+        guard written as an assert protects nothing there (seeded change s196)."""
+        out = os.path.join(REPLAY_DIR, ".optstage-%s-%d.json" % (prop, os.getpid()))
+        os.makedirs(REPLAY_DIR, exist_ok=True)
+        env = dict(os.environ, VERIF_SUBSTAGE="opt", VERIF_SUBSTAGE_OUT=out, VERIF_NO_EVIDENCE="1", VERIF_RUNS=str(n))
+        env.pop("VERIF_STOP_EARLY", None)
+        p = subprocess.run(py_cmd(1) + [os.path.abspath(__file__), "--property", prop, "--tier", "quick", "--workers", str(workers)],
+                           env=env, capture_output=True, text=True, timeout=1500)
+        summary = None
+        if os.path.exists(out):
+            summary = json.load(open(out))
+            os.remove(out)
+        if p.returncode not in (0, 1) or summary is None:
+            harness_problems.append("stage in an interpreter started with -O failed (exit %s): %s" % (p.returncode, (p.stdout + p.stderr)[-800:]))
+            return
+        notes["optimized_interpreter"] = {k: summary[k] for k in ("runs", "faults_fired", "optimize_flag")}
+        agg.c["optimized_interpreter_runs"] += summary["runs"]
+        sub_reports.extend(summary["reported"])
+        sub_known.extend(summary["known_lines"])
+
+    sub_reports, sub_known = [], []
     try:
-        if prop == "C19":
+        if substage == "opt":
+            swarm(600_000, 600_000 + n_quick)
+        elif prop == "C19":
             smallscope19(2 if tier == "quick" else 3)
-        if prop == "C18":
+        if prop == "C18" and not substage:
             smallscope(3 if tier == "quick" else 4)
-        if tier == "quick" and os.environ.get("VERIF_STOP_EARLY"):
+        if substage:
+            pass
+        elif tier == "quick" and os.environ.get("VERIF_STOP_EARLY"):
             # (sensitivity tooling only: the same stages in the same order, cut short at the first stage that
             # reports something - a changed tree that is caught at once need not be explored to the end)
             lo = 0
@@ -308,10 +350,14 @@ def main():
                 lo += 1500
             if not agg.violations and not agg.harness:
                 sweeps(0, n_sweep, {"crash_limit": 120, "fault_limit": 100})
+            if not agg.violations and not agg.harness:
+                optimized_stage(1500)
         elif tier == "quick":
             swarm(0, n_quick)
             sweeps(0, n_sweep, {"crash_limit": 120, "fault_limit": 100})
+            optimized_stage(1500)
         else:
+            optimized_stage(6000)
             done_swarm, done_sweep = 0, 0
             while True:
                 swarm(done_swarm, done_swarm + 8000)
@@ -376,8 +422,20 @@ def main():
             print("VIOLATION property=%s replay=%s" % (prop, path))
             reported.append({"clause": doc["clause"], "replay": path, "message": doc["message"]})
             exit_code = 1
+    for r_ in sub_reports:
+        print("violation (interpreter started with -O): clause %s: %s" % (r_["clause"], r_["message"]))
+        print("VIOLATION property=%s replay=%s" % (prop, r_["replay"]))
+        reported.append(r_)
+        exit_code = 1
+    for line in sub_known:
+        if line not in known_lines:
+            known_lines.append(line)
     for line in known_lines:
         print(line)
+    if substage and os.environ.get("VERIF_SUBSTAGE_OUT"):
+        with open(os.environ["VERIF_SUBSTAGE_OUT"], "w") as f:
+            json.dump({"runs": agg.n, "faults_fired": dict(agg.fired), "optimize_flag": int(sys.flags.optimize),
+                       "reported": reported, "known_lines": known_lines, "harness_problems": harness_problems}, f)
 
     # 4. evidence --------------------------------------------------------------------
     wall = time.time() - t0
@@ -400,6 +458,7 @@ def main():
             "distinct_abstract_states": len(agg.states),
             "operations": agg.c["ops"], "requests": agg.c["gets"], "hits": agg.c["hits"], "misses": agg.c["misses"],
             "evictions": agg.c["evictions"], "reopens": agg.c["reopens"],
+            "additional_runs_in_an_interpreter_started_with_-O": agg.c["optimized_interpreter_runs"],
             "faults_planned": dict(agg.planned), "faults_fired": dict(agg.fired),
             "crashes": agg.c["crashes"], "torn_write_crashes": agg.c["torn_write_crashes"],
             "sweep_crash_points": agg.c["sweep_crash_points"], "sweep_fault_positions": agg.c["sweep_fault_positions"],
